@@ -77,17 +77,19 @@ type World struct {
 	faults map[string]int
 	notes  map[string]string
 
-	pending   map[string][]string
-	viol      *Violation
-	infra     string
-	truncated bool
-	lockSeq   int
-	hold      map[string]int
-	endState  string
-	codeRand  *splitmix
-	stamp     int64
-	finished  bool
-	simEnd    time.Duration
+	pending     map[string][]string
+	viol        *Violation
+	infra       string
+	truncated   bool
+	lockSeq     int
+	hold        map[string]int
+	endState    string
+	codeRand    *splitmix
+	stamp       int64
+	rootSpawned int
+	rootNode    string
+	finished    bool
+	simEnd      time.Duration
 }
 
 var cur *World
@@ -469,6 +471,16 @@ func Go(fn func()) {
 	}
 	p := w.current()
 	if p == nil {
+		if w.isRoot() {
+			// goroutines started by instrumented code called from the scenario itself
+			w.mu.Lock()
+			w.rootSpawned++
+			id := fmt.Sprintf("root.%d", w.rootSpawned)
+			node := w.rootNode
+			w.mu.Unlock()
+			w.startTask(&Task{ID: id, Node: node}, fn)
+			return
+		}
 		go fn()
 		return
 	}
@@ -543,6 +555,10 @@ func (w *World) KillNode(node string) {
 		synctest.Wait()
 	}
 }
+
+// RootNode sets the node that goroutines spawned (through vsim.Go) by code called directly
+// from the scenario belong to.
+func (w *World) RootNode(node string) { w.mu.Lock(); w.rootNode = node; w.mu.Unlock() }
 
 // Dead reports whether the calling goroutine belongs to a killed node.
 func Dead() bool {
